@@ -98,3 +98,21 @@ func init() {
 		}
 	})
 }
+
+// ExtraIntrinsic registers models of external functions from other packages
+// of the verifier.
+func ExtraIntrinsic(f func(m *Machine)) { extraIntrinsics = append(extraIntrinsics, f) }
+
+// SliceAt returns the element of s at index k (a term); k is not checked
+// against the length.
+func (p *Path) SliceAt(s Slice, k *smt.Term) *smt.Term {
+	a := p.Heap[s.Obj].(*Arr)
+	idx := smt.BVAdd(s.Off, k)
+	if a.Elems == nil {
+		return term(p.symArrGet(a, idx))
+	}
+	saved := p.NoSafety
+	p.NoSafety = true
+	defer func() { p.NoSafety = saved }()
+	return term(p.arrGet(a, idx, "spec"))
+}
